@@ -4,4 +4,5 @@ INVARIANT MInAllowed
 INVARIANT OffMeansUntouched
 INVARIANT NonEmpty
 INVARIANT ImportOrderPreserved
+INVARIANT BinderKept
 CHECK_DEADLOCK FALSE
